@@ -129,6 +129,19 @@ func (g *G) Str(n int) []byte {
 const punct = "%%\\\"'{}$<>&;=,:*?!~|^()[]@`ab0"
 
 func (g *G) str0(n int) []byte {
+	if n >= 1 && n <= 12 && g.T.Bool(1, 40) {
+		// nothing but white space (what TrimSpace would reduce to "")
+		ws := []string{" ", "\u00a0", "  ", "\u2003"} // no control characters: MQTT discourages those
+		var out []byte
+		for len(out) < n {
+			w := ws[g.T.Int(len(ws))]
+			if len(out)+len(w) > n {
+				w = " "
+			}
+			out = append(out, w...)
+		}
+		return out
+	}
 	b := g.T.Bytes(n)
 	abc := alphabet
 	if n <= 64 && g.T.Bool(1, 5) {
@@ -206,6 +219,9 @@ func (g *G) U16() uint16 {
 		v = uint16(1 + t.Int(65535))
 	default:
 		v = uint16(1 + t.Int(65535))
+		if t.Bool(1, 8) {
+			v = uint16(1+t.Int(255)) << 8 // low byte zero
+		}
 	}
 	if len(g.nums) < 16 {
 		g.nums = append(g.nums, uint32(v))
@@ -238,6 +254,13 @@ func (g *G) U32() uint32 {
 		v = uint32(1 + t.Uint(1<<32-1))
 	default:
 		v = uint32(1 + t.Uint(1<<32-1))
+		if t.Bool(1, 6) {
+			// only high bits set: zero after a narrowing conversion to 16 or 8 bits
+			v = uint32(1+t.Int(65535)) << 16
+			if t.Bool(1, 3) {
+				v = uint32(1+t.Int(1<<24-1)) << 8
+			}
+		}
 	}
 	if len(g.nums) < 16 {
 		g.nums = append(g.nums, v)
